@@ -65,6 +65,18 @@ CHECKS.update({
             "inputs on which a length-limited bincode decoder reports LimitExceeded are decoded only in a child process (known finding F11)", E3, "DESIGN.md 3 C20"),
 })
 
+CHECKS.update({
+    "C02": ("E2", "model_checking",
+            "Closed cluster of 2..4 (thorough 5) real instances under a virtual clock, every timer exactly on time. Grid: join pattern (sequential / concurrent x same seed / distinct seeds) x max_transmissions {1,3,10} x fan-out {1,3} x periodic gossip+announce on/off x packet size {just feeds the cluster, 1400, and - safety clause only - too small to feed it}. Per cell the default schedule plus EVERY schedule departing from it in at most D choice points (latency of each datagram 1 or 9 ticks, order of simultaneous events at a node, every RNG draw). Safety on every event: no live member recorded Suspect/Down, no MemberDown/Idle/Defunct, every call Ok. Discovery: every instance lists exactly every other within (2n+2) probe periods of the last join.",
+            "D=2 for n<=3, D=1 for n=4 (quick); a joiner announces once; known finding F8 (concurrent joiners through distinct seeds, periodic announce off) is reported as KNOWN-FINDING", E2X, "DESIGN.md 3 C02"),
+    "C03": ("E2", "fault_enumeration",
+            "Formed cluster (bootstrapped by real announces, staggered phases) of 2..4 (thorough 5) members; EVERY non-empty proper subset failing, by crash or by leave_cluster while the process keeps running, renewable and non-renewable identities, at EVERY event index of one full probe rotation; on top of each fault cell every schedule with <= D deviations. Oracle: every survivor that listed a failed member notifies MemberDown within (2n+1) probe periods + suspect_to_down_after; no survivor is ever declared Down or told so; members told of a leave report Down at once; a leaver sends no Ack/IndirectAck/Feed/... afterwards and never rejoins.",
+            "D=1 (quick), D=2 for n<=3 / D=1 for n=4,5 (thorough); timing configuration fixed (100/40/300 ticks)", E2F, "DESIGN.md 3 C03"),
+    "C04": ("E2", "fault_enumeration",
+            "Formed cluster of 2..4 (thorough 5) members; notify_down_members x renewable x fan-out x max_transmissions; three traffic flavours (plain; one slow-but-delivered Ack so that an indirect probe cycle exists; a join inside the window with periodic gossip) so that Ping, Ack, PingReq, IndirectPing, IndirectAck, ForwardedAck, Gossip and Feed can each be the lost datagram (run fails as vacuous otherwise); EVERY datagram index of a window of 2n+2 probe periods is dropped in turn; on top every schedule with <= D deviations. Oracle: no MemberDown, Defunct or Rejoin anywhere; at the horizon every formed member lists every other as Alive.",
+            "D=1 for n<=3, D=0 for n=4 (quick); D=2/1 (thorough)", E2F, "DESIGN.md 3 C04"),
+})
+
 PENDING = {}  # property -> reason; filled below for everything not in CHECKS
 
 def main():
